@@ -24,7 +24,8 @@ def check(ctx):
     ctx.run(W.rule_two_entry_chains, "C05.W2", rr)
     ctx.run(W.rule_snapshot_before_mutation, "C05.W1", rr)
     ctx.run(S.rule_every_stale_entry_rebuilt, "C05.W2", rr, rid_required="C05.W3")
-    ctx.run(S.rule_ancestor_closure, "C05.W3", rr)
+    from .prunerules import rule_pruning_evaluated
+    ctx.run(rule_pruning_evaluated, "C05.W3", rr)
     ctx.run(E.rule_atomic_counter, "C05.W2", er)
     ctx.run(E.rule_counting_agreement, "C05.W2", er)
     ctx.run(E.rule_one_callback_per_dequeue, "C05.W2", er)
